@@ -111,7 +111,8 @@ def check_case(case, out):
                 if len(bets) != len(os_):
                     continue
                 ww, wl = worst_case(bets)
-                if abs(got[0] - ww) > 0.005 or abs(got[1] - wl) > 0.005 or abs(got[2] - max(-min(ww, wl), 0.0)) > 0.005:
+                # the blotter rounds the matched and the unmatched part to the penny separately: within one penny of the exact figure (C16's statement)
+                if abs(got[0] - ww) > 0.0101 or abs(got[1] - wl) > 0.0101 or abs(got[2] - max(-min(ww, wl), 0.0)) > 0.0101:
                     bad.append(("C16-betdaq-exposure", "BETDAQ, step %d (after the poll, nothing outstanding): selection %s reported win/lose/exposure %s, the worst case over the bets the exchange holds is %s / %s; local orders %s, exchange %s"
                                 % (si, sel, got, ww, wl, [(o["o"], o["side"], o["price"], o["matched"], o["remaining"], o["status"]) for o in os_],
                                    [(b["side"], b["price"], b["matched_size"], b["remaining_size"], b["status"]) for b in bets])))
